@@ -316,7 +316,7 @@ def to_script(cex):
             kind = e['step'].lower()
             err = (' ' + e['err'].lower()) if kind == 'failed' else ''
             if err.strip() == 'ambiguousmatch':
-                err = ' panic'          # same summariser path (not NotFound); AmbiguousMatchError is not constructible from outside
+                err = ' ambiguous'
             if k == 'Background':
                 if e.get('looks_like_last_own_step') and not e.get('is_last_own_step'):
                     dups.add('bgdup %d' % cur_bg)
